@@ -331,7 +331,7 @@ prop('C15',
      level_note='Trusted: Kani/CBMC/cadical; TOY hash parametricity. Partial claim.')
 
 prop('C35', wip=True,
-     builds=[dict(crate='vm', filters=['c35_', 'x35_'])],
+     builds=[dict(crate='vm', filters=['c35_'])],
      default=dict(mem=6, timeout={'quick': 900, 'thorough': 2400}, cbmc_extra=FS, unwindset=['memcmp.0:34']),
      min_harnesses={'quick': 7, 'thorough': 7},
      functions_encoded=['Interpreter::upload_bytecode_subsection', 'Interpreter::upload_inner', 'Interpreter::finalize_outputs',
@@ -344,7 +344,7 @@ prop('C35', wip=True,
      level_text='One-step bounded model checking of the real upload step functions against the sequential-upload specification from an arbitrary stored state: accepted iff next in order, stored value = prior bytes followed by the witness, completed exactly at the last part, completed bytecode never extended, failed steps and unrelated roots leave the table unchanged.',
      level_note='Trusted: Kani/CBMC/cadical. Partial claim (upload part).')
 
-prop('C03', wip=True,
+prop('C03',
      builds=[dict(crate='ext', filters=['c03_'])],
      default=dict(mem=8, timeout={'quick': 900, 'thorough': 2400}, cbmc_extra=FS, unwindset=['memcmp.0:600']),
      overrides=[(r'c03_tx_script_(coin_change|contract_variable)$', dict(mem=16, tier='thorough', attempt=True, timeout=1800))],
@@ -353,7 +353,7 @@ prop('C03', wip=True,
                         '<ChargeableTransaction as PrepareSign>::prepare_sign, ScriptBody::prepare_sign', '<ChargeableTransaction as UniqueIdentifier>::{id, cached_id}',
                         'fuel_tx::transaction::compute_transaction_id', '<Script as Cacheable>::precompute, CommonMetadata::compute', '<Script as Serialize>::to_bytes'],
      bounds=['element layer: every one of the 7 input and 5 output variants, all scalar / fixed-array fields symbolic, byte vectors of 1..3 symbolic bytes',
-             'transaction layer: Script transactions with (inputs, outputs, witnesses) in {(0,0,0), (0,0,1), (1,1,1), (1,2,0)}, 4-byte script, 1-byte script data, tip and max-fee policies, all scalars symbolic, all chain ids'],
+             'transaction layer: Script transactions with (inputs, outputs, witnesses) in {(0,0,0), (0,0,1)}, 4-byte script, 0..1-byte script data, tip and max-fee policies, all scalars symbolic, all chain ids; fresh id, cached id, and re-precompute after an edit; shapes (1,1,1) and (1,2,0) are thorough-tier attempts that gave no verdict in 900 s (their inputs/outputs go through the element functions decided above)'],
      assumptions=['Result::{expect,unwrap} replaced by non-formatting models (K2)',
                   'fuel_crypto::Hasher::{input, finalize} replaced by a logging stand-in: the obligation is on the hashed PRE-IMAGE (= big-endian chain id followed by the canonical bytes of the transaction with malleable fields defaulted and witnesses removed, built by the harness through the public constructors); SHA-256 itself and collision resistance are outside the claim; counterexamples are replayed natively with real SHA-256'],
      out_of_claim=['Create / Upload / Upgrade / Blob / Mint at the transaction layer (their inputs/outputs go through the same element functions decided here; body prepare_sign of those kinds is the empty function)', 'larger shapes', 'SHA-256, collision resistance'],
@@ -363,13 +363,14 @@ prop('C03', wip=True,
 prop('C04', wip=True,
      builds=[dict(crate='ext', filters=['c04_'])],
      default=dict(mem=8, timeout={'quick': 900, 'thorough': 2400}, cbmc_extra=FS, unwindset=['memcmp.0:400']),
-     overrides=[(r'c04_tx_script_(coin|pred|contract)', dict(mem=16))],
-     min_harnesses={'quick': 21, 'thorough': 21},
+     overrides=[(r'c04_tx_script_(coin|pred|contract)', dict(mem=16, tier='thorough', attempt=True, timeout=1800)),
+                (r'c04_el_message_data_predicate', dict(mem=12, timeout=1800))],
+     min_harnesses={'quick': 18, 'thorough': 21},
      functions_encoded=['fuel_tx::input::InputRepr::{*_offset, from_input}', 'fuel_tx::output::OutputRepr::{*_offset, from_output}', 'Input::{predicate_offset, predicate_data_offset, repr}',
                         'field::{ScriptGasLimit, ReceiptsRoot, Script, ScriptData, Policies, Inputs, Outputs, Witnesses}::*_offset / *_offset_at / inputs_predicate_offset_at for Script (chargeable_transaction.rs mod field, script.rs)',
                         'CommonMetadata::compute / ScriptMetadata (cached offsets)', '<T as Serialize>::to_bytes for Input, Output, Witness, Policies, Script'],
      bounds=['element layer: 7 input variants (predicate / data lengths from {0,1,2,3,7,8,9}) and 5 output variants, all fields symbolic',
-             'transaction layer: Script with (inputs, outputs, witnesses) in {(0,0,0), (0,0,1), (1,1,1), (1,1,0), (2,1,0)}, script lengths 4 and 7, data lengths 0, 1, 9; with and without precompute; index arguments beyond the vectors symbolic'],
+             'transaction layer: Script with (inputs, outputs, witnesses) in {(0,0,0), (0,0,1), (0,0,2)}, script lengths 4 and 7, data lengths 0 and 9, tip + max-fee policies; with and without precompute; index arguments beyond the vectors symbolic; shapes with inputs/outputs ((1,1,1), (1,1,0), (2,1,0)) are thorough-tier attempts that gave no verdict in 900 s'],
      assumptions=['Result::{expect,unwrap} replaced by non-formatting models (K2)'],
      out_of_claim=['Create / Upload / Upgrade / Blob / Mint body offsets (salt, storage slots, proof set, ...)', 'larger shapes'],
      level_text='Bounded model checking of the offset tables and accessors against the real encoder: every reported offset locates exactly the canonical bytes of the field, absent fields report None, cached (precomputed) offsets equal uncached ones.',
@@ -377,21 +378,21 @@ prop('C04', wip=True,
 
 prop('C07', wip=True,
      builds=[dict(crate='ext', filters=['c07_'])],
-     default=dict(mem=3, timeout={'quick': 600, 'thorough': 1200}),
-     min_harnesses={'quick': 3, 'thorough': 3},
-     functions_encoded=['fuel_compression::RegistryKey::{next, as_u32, try_from(u32), try_from(&[u8]), as_ref}'],
-     bounds=['all 2^32 raw values / all 2^24 keys (exhaustive for the key kernel)'],
+     default=dict(mem=4, timeout={'quick': 600, 'thorough': 1200}, unwindset=['memcmp.0:70']),
+     min_harnesses={'quick': 10, 'thorough': 10},
+     functions_encoded=['fuel_compression::RegistryKey::{next, as_u32, try_from(u32), try_from(&[u8]), as_ref}', 'derive(Compress, Decompress) output for fuel_tx::Output (5 variants, compress(skip) fields) and fuel_tx::UpgradePurpose', 'hand-written CompressibleBy/DecompressibleBy for Policies and PoliciesBits', 'fuel_compression identity impls for integers and Bytes32'],
+     bounds=['all 2^32 raw values / all 2^24 keys (exhaustive for the key kernel)', 'round trip: all 64 policy masks with symbolic values; both upgrade purposes; the five output variants; all fields symbolic; array-backed registry context with 4 slots'],
      assumptions=['Result::{expect,unwrap} replaced by non-formatting models (K2)'],
-     out_of_claim=['derive(Compress/Decompress) round trip of transactions and id preservation: the derive output is async code against a registry context whose only implementation in this repository is test code; not built',
+     out_of_claim=['inputs (their decompression restores owner/amount/asset from a coin/message lookup that only exists in test code), whole transactions and the id-preservation clause for them',
                    'sequences sharing one registry with eviction'],
-     level_text='Bounded model checking of the registry-key kernel only (key wrap-around clause): next() is total on writable keys, increments, wraps MAX_WRITABLE to ZERO and never yields the reserved default key; u32 / byte conversions are mutually inverse. The transaction round-trip clauses of C07 are outside the claim.',
-     level_note='Trusted: Kani/CBMC/cadical. Partial claim (key kernel only).')
+     level_text='Bounded model checking of the registry-key kernel (next() total on writable keys, increments, wraps MAX_WRITABLE to ZERO, never yields the reserved key; conversions mutually inverse) and of the compress/decompress round trip for policies, upgrade purposes and outputs: every non-skipped field comes back unchanged, skipped (malleable) fields come back as defaults.',
+     level_note='Trusted: Kani/CBMC/cadical. Partial claim (key kernel + element round trips; inputs and whole transactions out).')
 
 prop('C27', wip=True,
      builds=[dict(crate='vm', filters=['c27_'])],
      default=dict(mem=8, timeout={'quick': 900, 'thorough': 2400}, cbmc_extra=FS, unwindset=['memcmp.0:70']),
-     min_harnesses={'quick': 4, 'thorough': 4},
-     functions_encoded=['interpreter::contract::{balance, balance_increase, balance_decrease}', '<op::TR as Execute>::execute, Interpreter::transfer, TransferCtx::transfer (contract context)',
+     min_harnesses={'quick': 6, 'thorough': 6},
+     functions_encoded=['<Script as ExecutableTransaction>::{update_outputs, replace_variable_output}', 'interpreter::contract::{balance, balance_increase, balance_decrease}', '<op::TR as Execute>::execute, Interpreter::transfer, TransferCtx::transfer (contract context)',
                         'internal::{internal_contract, current_contract}', 'Normal::check_contract_in_inputs', 'ReceiptsCtx::push', 'gas::gas_charge',
                         '<MemoryStorage as ContractsAssetsStorage>::{contract_asset_id_balance, _insert, _replace}'],
      bounds=['real MemoryStorage with optional balances for (source, asset) and (destination, asset) plus two bystander entries; contract and asset ids concrete and pairwise distinct, one instance with source == destination',
@@ -399,14 +400,15 @@ prop('C27', wip=True,
              'TR executed in a contract (Call) context with the call frame id at $fp; operand pointers concrete'],
      assumptions=[VM_STUBS_NOTE, 'binary Merkle leaf_sum/node_sum (receipts root) replaced by a stand-in: the receipts root value is not part of this property', 'register part of VMINV'],
      out_of_claim=['every path through RuntimeBalances (hashbrown map, K5): transfers from a script context, external CALL coin forwarding, the in-memory balance table',
-                   'TRO, MINT, BURN, SMO, CALL forwarding, update_outputs (not built)', 'the global ledger equation over whole programs (sum of the local equations: argument)'],
+                   'TRO / MINT / BURN / SMO handlers and CALL coin forwarding (not built; the variable-output slot rule used by TRO and the post-execution change/refund/revert rule are decided on the transaction methods)', 'the global ledger equation over whole programs (sum of the local equations: argument)'],
      level_text='One-step bounded model checking of the contract-balance kernel and of the TR instruction in a contract context against the local conservation equation: the source loses exactly what the destination gains, deficits and overflows panic instead of wrapping, the receipt carries the moved amount, bystander balances never change.',
      level_note='Trusted: Kani/CBMC/cadical, split_registers model. Partial claim (contract-to-contract transfers).')
 
 prop('C30', wip=True,
      builds=[dict(crate='vm', filters=['c30_', 'c27_tr_internal'])],
+     overrides=[(r'c27_tr_internal_self$', dict(skip=True))],
      default=dict(mem=8, timeout={'quick': 900, 'thorough': 2400}, cbmc_extra=FS, unwindset=['memcmp.0:70']),
-     min_harnesses={'quick': 5, 'thorough': 5},
+     min_harnesses={'quick': 8, 'thorough': 8},
      functions_encoded=['<Normal as Verifier>::check_contract_in_inputs', '<op::BAL as Execute>::execute, ContractBalanceCtx::contract_balance', '<op::TR as Execute>::execute (input check before any balance access, contract and script context)',
                         'PredicateStorage<D>: every StorageInspect/Mutate/Size/Read/Write method of ContractsAssets, ContractsRawCode, ContractsState and contract_state_remove_range'],
      bounds=['input set with 0..3 concrete contract ids, queried id symbolic among listed / unlisted ones', 'BAL / TR steps as in C27 with symbolic membership of the target in the input set',
@@ -416,7 +418,7 @@ prop('C30', wip=True,
      level_text='Bounded model checking of the input-membership check and of two instructions using it: an unlisted contract is refused with ContractNotInInputs before any balance is read or written (storage compared before/after), listed ones are served; the predicate storage refuses every contract-table operation.',
      level_note='Trusted: Kani/CBMC/cadical, split_registers model. Partial claim (BAL, TR, verifier, predicate storage).')
 
-prop('C32', wip=True,
+prop('C32',
      builds=[dict(crate='vm', filters=['c32_']), dict(crate='vm', filters=['c32x_'], tier='thorough')],
      default=dict(mem=6, timeout={'quick': 900, 'thorough': 2400}),
      min_harnesses={'quick': 2, 'thorough': 5},
@@ -433,19 +435,18 @@ prop('C32', wip=True,
 prop('C17', wip=True,
      builds=[dict(crate='vm', filters=['c17_'])],
      default=dict(mem=10, timeout={'quick': 1200, 'thorough': 2400}),
-     min_harnesses={'quick': 2, 'thorough': 2},
-     functions_encoded=['<op::ECR1 as Execute>::execute, Interpreter::secp256r1_recover, crypto::secp256r1_recover', '<op::ED19 as Execute>::execute, Interpreter::ed25519_verify, crypto::ed25519_verify',
+     min_harnesses={'quick': 3, 'thorough': 3},
+     functions_encoded=['<op::ECK1 as Execute>::execute, Interpreter::secp256k1_recover, crypto::secp256k1_recover', '<op::ECR1 as Execute>::execute, Interpreter::secp256r1_recover, crypto::secp256r1_recover', '<op::ED19 as Execute>::execute, Interpreter::ed25519_verify, crypto::ed25519_verify',
                         'MemoryInstance::{read_bytes, read, write_bytes}, OwnershipRegisters::verify_ownership', 'set_err / clear_err / inc_pc'],
      bounds=['VMINV state with a symbolic 200-byte stack, no heap; all operand pointers / lengths: any u64; symbolic gas schedule (ED19 per-unit price 0)',
              'the curve library call is replaced by a model returning an ARBITRARY result chosen by the solver (key bytes symbolic)'],
-     assumptions=[VM_STUBS_NOTE, 'fuel_crypto::secp256r1::recover and fuel_crypto::ed25519::verify replaced by arbitrary-result models that record what they were asked (DESIGN §3.3)'],
-     out_of_claim=['sign/recover/verify consistency and strict-verification equivalence: 256-bit curve arithmetic (libsecp256k1 FFI, k256/p256/ed25519-dalek) is out of reach for bit-blasting', 'ECK1 (same code shape; PublicKey has no raw constructor for the model)',
-                   'signature_format encode/decode'],
+     assumptions=[VM_STUBS_NOTE, 'fuel_crypto::Signature::recover, fuel_crypto::secp256r1::recover and fuel_crypto::ed25519::verify replaced by arbitrary-result models that record what they were asked (DESIGN §3.3)'],
+     out_of_claim=['sign/recover/verify consistency and strict-verification equivalence: 256-bit curve arithmetic (libsecp256k1 FFI, k256/p256/ed25519-dalek) is out of reach for bit-blasting',                    'signature_format encode/decode'],
      level_text='One-step bounded model checking of the VM signature instructions for ANY answer of the curve library: the library is asked about exactly the bytes in memory, success writes the key and clears $err, failure zeroes the destination and sets $err, ownership and bounds are enforced, nothing else changes.',
      level_note='Trusted: Kani/CBMC/cadical. Partial claim: VM glue only, curve arithmetic not applicable.')
 
 prop('C31', wip=True,
-     builds=[dict(crate='vm', filters=['c31_'])],
+     builds=[dict(crate='vm', filters=['c31_', 'x31_'])],
      default=dict(mem=12, timeout={'quick': 1200, 'thorough': 2400}, cbmc_extra=FS, unwindset=['memcmp.0:70']),
      min_harnesses={'quick': 3, 'thorough': 3},
      functions_encoded=['Interpreter::init_predicate, Interpreter::init_inner', 'MemoryInstance::{reset, grow_stack, write_noownerchecks}', 'RuntimeBalances::to_vm (empty balances)', 'RuntimePredicate::from_tx',
@@ -456,6 +457,54 @@ prop('C31', wip=True,
      out_of_claim=['whole-run determinism (argument: given equal initial states Interpreter::run is a function of state and storage)', 'init_script with non-empty balances (RuntimeBalances is a hashbrown map, K5)', 'VmMemoryPool', 'storage_slot_cache contents (cleared by the same code path; not constructed dirty here)'],
      level_text='Bounded model checking of the real initialisation on a dirty interpreter versus a fresh one: registers, the whole flat memory (incl. accessibility), frames, receipts, input-contract set, output index map and owner pointer agree; the transaction bytes sit at tx_offset; stale input contracts are dropped.',
      level_note='Trusted: Kani/CBMC/cadical. Partial claim (initialisation mechanism).')
+
+prop('C19', wip=True,
+     builds=[dict(crate='vm', filters=['c19_'])],
+     default=dict(mem=8, timeout={'quick': 900, 'thorough': 2400}, cbmc_extra=FS, unwindset=['memcmp.0:34']),
+     min_harnesses={'quick': 3, 'thorough': 3},
+     functions_encoded=['fuel_vm::checked_transaction::balances::{initial_free_balances, add_up_input_balances, deduct_max_fee_from_base_asset, reduce_free_balances_by_coin_outputs}'],
+     bounds=['Script transactions with 3..6 inputs covering all 7 input variants and up to 5 outputs covering coin / change / variable / contract outputs; asset ids are harness constants (base, one other, one asset without inputs); every amount, the fee limit and its presence: all u64 values'],
+     assumptions=['Result::{expect,unwrap} replaced by non-formatting models (K2)'],
+     out_of_claim=['the accept/reject half of C19 (check_common_part, per-input / per-output / per-kind rules): the ~45-rule reference was not built; check_common_part also reaches itertools hash sets (K5)',
+                   'IntoChecked::into_checked_basic storing the balances (straight-line use of the decided function)', 'more than two assets'],
+     level_text='Bounded model checking of the real free-balance computation against an exact wide-integer reference: per asset, spendable inputs (coins per asset, message coins as base asset, data messages as retryable) minus the fee limit minus coin outputs; overflowing sums, a missing or excessive fee limit, excessive coin outputs and coin outputs of assets without inputs are rejected with the specified error.',
+     level_note='Trusted: Kani/CBMC/cadical. Partial claim (balance half of C19).')
+
+prop('C20', wip=True,
+     builds=[dict(crate='vm', filters=['c20_'])],
+     default=dict(mem=8, timeout={'quick': 900, 'thorough': 2400}, cbmc_extra=FS),
+     min_harnesses={'quick': 2, 'thorough': 2},
+     functions_encoded=['interpreter::executors::main::predicates::finalize_check_predicate', 'PredicatesChecked::gas_used', '<Script as Chargeable>::max_gas (free gas schedule)'],
+     bounds=['a Script with three predicate inputs (coin, message-coin and message-data predicates); per-predicate outcomes ARBITRARY (passed with any gas, evaluated to false, gas mismatch, invalid owner); all 6 arrival orders; max_gas_per_tx: any u64'],
+     assumptions=['Result::{expect,unwrap} replaced by non-formatting models (K2)', 'the per-predicate outcome is an arbitrary value: the predicate run itself (whole-VM execution) is outside the claim'],
+     out_of_claim=['signature recovery (curve arithmetic, see C17) and Input::check_signature with its HashMap recovery cache (K5)', 'check_predicate: owner check and the run-result mapping (verify_predicate is a whole-VM run)', 'arbitrary predicate programs; determinism of the run itself (C31)'],
+     level_text='Bounded model checking of the aggregation step of predicate checking for arbitrary per-predicate outcomes: verdict and total gas are the same for every arrival order of the results (sequential = parallel), the total is the checked sum, any failed predicate fails the transaction, and estimation writes back exactly the gas each predicate used.',
+     level_note='Trusted: Kani/CBMC/cadical. Partial claim (aggregation step only).')
+
+prop('C05', wip=True,
+     builds=[dict(crate='vm', filters=['c05_'])],
+     default=dict(mem=12, timeout={'quick': 1200, 'thorough': 2400}, cbmc_extra=FS, unwindset=['memcmp.0:200']),
+     min_harnesses={'quick': 3, 'thorough': 3},
+     functions_encoded=['<op::GM as Execute>::execute, Interpreter::metadata, interpreter::metadata::metadata', 'Interpreter::get_transaction_field, GTFInput::get_transaction_field',
+                        'GMArgs::try_from, GTFArgs::try_from', 'init_inner placing the transaction bytes at tx_offset and computing the owner pointer: harnesses c31_init_* (run with C31)'],
+     bounds=['GM: all 2^18 immediates, all destination registers, Script / Call / predicate contexts, with and without a call frame (symbolic saved $fp), symbolic chain id / gas price / tx offset / owner pointer',
+             'GTF: a Script with one coin-predicate, one contract and one message-data-predicate input, a coin and a contract output, one witness, tip + max-fee policies, every scalar and byte symbolic; 90 selector/index combinations incl. wrong-family, absent-index, other-kind and all undefined selectors'],
+     assumptions=[VM_STUBS_NOTE, 'selector numbers are the specification literals, not the GMArgs/GTFArgs enums'],
+     out_of_claim=['GTF on Create / Upload / Upgrade / Blob transactions (kind-specific selectors)', 'other input/output variants and shapes', 'gas charge of GTF (symbolic-schedule charge is asserted for GM)'],
+     level_text='Bounded model checking of the introspection instructions against a specification table: value selectors return the value of the executed transaction, pointer selectors point at exactly the canonical bytes of the field inside the encoded transaction, wrong-family / absent / other-kind / undefined selectors panic as specified; GM returns the configured values in every context.',
+     level_note='Trusted: Kani/CBMC/cadical, split_registers model. Partial claim (Script kind).')
+
+prop('C06', wip=True,
+     builds=[dict(crate='ext', filters=['c06_'])],
+     default=dict(mem=10, timeout={'quick': 900, 'thorough': 2400}, cbmc_extra=FS),
+     min_harnesses={'quick': 9, 'thorough': 9},
+     functions_encoded=['<Policies as serde::Serialize>::serialize, <Policies as serde::Deserialize>::deserialize (hand-written, legacy vs compact layout)', 'postcard::{to_allocvec, from_bytes}, bincode::{serialize, deserialize} (real)', 'Policies::{get, set, bits}'],
+     bounds=['policy masks {none, tip, maturity, all four legacy policies, expiration, owner, owner+max-fee, all six} as harness constants (the mask fixes the value-vector length); all values symbolic (maturity / expiration: u32, the documented validity)'],
+     assumptions=['Result::{expect,unwrap} replaced by non-formatting models (K2)'],
+     out_of_claim=['serde_json (decimal/float/string formatting: each u64 is a data-dependent digit loop, the textbook explosion case for bounded symbolic execution)', 'transactions, receipts, consensus parameters and gas cost tables (serde_derive-generated impls, mechanical)',
+                   'UpgradeMetadata::compute: postcard decoding of a whole ConsensusParameters value plus SHA-256 checksum', 'the other 55 masks'],
+     level_text='Bounded model checking of the hand-written serde implementation of Policies through the real postcard and bincode codecs: for legacy-layout and compact-layout masks with symbolic values the deserialized value equals the original, entry by entry, including the newer owner and expiration entries.',
+     level_note='Trusted: Kani/CBMC/cadical. Partial claim (Policies serde; JSON and the derive-generated impls are out).')
 
 # ---------------------------------------------------------------------------------------
 def opts_for(pid, h, tier):
